@@ -206,9 +206,14 @@ def c04_5(rep, ix, G):
     br = [s for s in fn.body if isinstance(s, ast.If) and "ParameterLabelContext" in u(s.test)]
     if len(br) != 1:
         raise Inconclusive("_expression: ParameterLabel branch not recognised")
-    b = br[0].body
+    b = [x for x in br[0].body if not (isinstance(x, ast.Expr) and isinstance(x.value, ast.Constant))]
     txt = [" ".join(u(s).split()) for s in b]
-    ok = len(b) == 3 and txt[0] == "p = Symbol(expr.parameter().NAME().getText())" and txt[1] == "_PARAMS.append(p)" and txt[2] == "return p"
+    ok = False
+    if len(b) == 3 and isinstance(b[0], ast.Assign) and isinstance(b[0].targets[0], ast.Name):
+        v = b[0].targets[0].id
+        arg = f.params[0]
+        ok = " ".join(u(b[0].value).split()) in ("Symbol(%s.parameter().NAME().getText())" % arg, "sym.Symbol(%s.parameter().NAME().getText())" % arg) \
+            and txt[1] == "_PARAMS.append(%s)" % v and txt[2] == "return %s" % v
     rep.check(ok, R, ix.site(f, br[0]), "{name} evaluates to Symbol(name), records it in the parameter table and returns that symbol", "got %s" % txt, key="parameter branch")
     e = ix.func(EXITP)
     pub = [n for n in walk_shallow(e.node) if isinstance(n, ast.Call) and isinstance(n.func, ast.Attribute) and n.func.attr == "extend" and u(n.func.value) == "self._program._parameters"]
@@ -224,6 +229,11 @@ def c04_5(rep, ix, G):
     if sym:
         loops = [l for l in walk_shallow(an) if isinstance(l, ast.For) and any(x is sym[0] for x in ast.walk(l))]
         its = [(u(l.target), " ".join(u(l.iter).split())) for l in loops]
+        if not its:
+            # nested comprehension: outermost generator first
+            comps = [c for c in ast.walk(an) if isinstance(c, (ast.ListComp, ast.GeneratorExp)) and any(x is sym[0] for x in ast.walk(c))]
+            comps.sort(key=lambda c: -len(list(ast.walk(c))))
+            its = [(u(g.target), " ".join(u(g.iter).split())) for c in comps for g in c.generators]
         rep.check(("i", "range(shape[0])") in its and ("j", "range(shape[1])") in its and its.index(("i", "range(shape[0])")) < its.index(("j", "range(shape[1])")), R, ix.site(a, sym[0]),
                   "rows are the outer loop over shape[0], columns the inner loop over shape[1]", "loops %s" % its, key="element loops")
     ext = [n for n in walk_shallow(an) if isinstance(n, ast.Call) and u(n.func) == "_PARAMS.extend"]
